@@ -82,8 +82,11 @@ fn ser_named_type(ty: &OwnedDataModelType, value: &Value, out: &mut Vec<u8>) -> 
             out.extend_from_slice(used);
         }
         OwnedDataModelType::I128 => {
-            let val = value.as_i64().right()?;
-            let val = i128::from(val);
+            // serde_json stores positive values above i64::MAX as u64
+            let val = match value.as_i64() {
+                Some(val) => i128::from(val),
+                None => i128::from(value.as_u64().right()?),
+            };
             let val = zig_zag_i128(val);
             let mut buf = [0u8; varint_max::<i128>()];
             let used = varint_u128(val, &mut buf);
